@@ -532,6 +532,8 @@ func runC18(c *fw.Ctx) {
 			if k%8 == 0 {
 				m.unary(a)
 				m.roundTrip(a >> uint(c.Rng.Intn(40)))
+				m.codec(a >> uint(c.Rng.Intn(64)))
+				m.codec(a | 1<<63)
 			}
 			c.Distinct("nontrivial", fw.Hash64("pair", a, b))
 		}
@@ -616,7 +618,7 @@ func init() {
 		Cases: func(tier string) int { a, b, cc, d, e := c18Layout(tier); return a + b + cc + d + e },
 		Run:   runC18,
 		Floors: map[string]int64{"eval_MultCoin": 100000, "eval_AddCoin": 100000, "eval_DistributeCoin": 100000, "eval_Float64ToCoin": 50000, "eval_MultFloat64": 50000,
-			"eval_ParseZCN": 50000, "eval_codec": 250, "negative_wire_integers_refused": 50, "round_trips": 20000, "wrap_to_zero_pairs": 20000, "loud_failures": 10000, "parse_ok": 5000, "parse_neighbours": 100000},
+			"eval_ParseZCN": 50000, "eval_codec": 1000, "negative_wire_integers_refused": 500, "round_trips": 20000, "wrap_to_zero_pairs": 20000, "loud_failures": 10000, "parse_ok": 5000, "parse_neighbours": 100000},
 		Assumptions: []string{
 			"AddInt64/MinusInt64 with a negative operand: an error or the exact result are both accepted (the helper documents refusal)",
 			"Coin.Float64: the IEEE-nearest float with nil error, or an error, are accepted",
